@@ -109,12 +109,15 @@ let show_outcome = function
   | RtmpSession.OPanic s -> site_name s
   | RtmpSession.OFuel -> "fuel"
 
+let role_name = function
+  | RtmpSession.RUnknown -> "PUBSUB" | RtmpSession.RPub -> "PUB" | RtmpSession.RSub -> "SUB"
+
 let show_ev = function
   | RtmpSession.EvConnect (n, app) -> Printf.sprintf "conn:%s:%s" (token_of_n n) (str_tok app)
-  | RtmpSession.EvNewPub (app, sn, rq, url, acc) ->
-    Printf.sprintf "newpub:%s:%s:%s:%s:%s" (str_tok app) (str_tok sn) (str_tok rq) (str_tok url) (if acc then "a" else "r")
-  | RtmpSession.EvNewSub (app, sn, rq, url, acc) ->
-    Printf.sprintf "newsub:%s:%s:%s:%s:%s" (str_tok app) (str_tok sn) (str_tok rq) (str_tok url) (if acc then "a" else "r")
+  | RtmpSession.EvNewPub (seen, app, sn, rq, url, acc) ->
+    Printf.sprintf "newpub:%s:%s:%s:%s:%s:%s" (role_name seen) (str_tok app) (str_tok sn) (str_tok rq) (str_tok url) (if acc then "a" else "r")
+  | RtmpSession.EvNewSub (seen, app, sn, rq, url, acc) ->
+    Printf.sprintf "newsub:%s:%s:%s:%s:%s:%s" (role_name seen) (str_tok app) (str_tok sn) (str_tok rq) (str_tok url) (if acc then "a" else "r")
   | RtmpSession.EvAv m ->
     let h = m.RtmpComposer.m_hdr in
     Printf.sprintf "av:%s:%s:%s:%s:%s:%s" (token_of_n h.RtmpChunk.h_csid) (token_of_n h.RtmpChunk.h_len)
@@ -125,8 +128,8 @@ let show_ev = function
 
 let kind_of = function
   | RtmpSession.EvConnect _ -> "conn"
-  | RtmpSession.EvNewPub (_, _, _, _, acc) -> if acc then "newpub:a" else "newpub:r"
-  | RtmpSession.EvNewSub (_, _, _, _, acc) -> if acc then "newsub:a" else "newsub:r"
+  | RtmpSession.EvNewPub (_, _, _, _, _, acc) -> if acc then "newpub:a" else "newpub:r"
+  | RtmpSession.EvNewSub (_, _, _, _, _, acc) -> if acc then "newsub:a" else "newsub:r"
   | RtmpSession.EvAv _ -> "av"
   | RtmpSession.EvDelPub -> "delpub"
   | RtmpSession.EvDelSub -> "delsub"
